@@ -1,5 +1,5 @@
 (* C03 — workflow state propagation = nested-loop reference evaluation. *)
-From Pydra Require Import Base.Prelude Model.StateWf Spec.StateWf Proofs.StateWf Proofs.StateWfMain Proofs.StateWfCor.
+From Pydra Require Import Base.Prelude Model.StateWf Spec.StateWf Proofs.StateWf Proofs.StateWfMain Proofs.StateWfCor Proofs.StateWfPair.
 
 (* the property at full strength: on every well-formed workflow of the modelled fragment the model
    (= the code) produces exactly the nested-loop outputs *)
@@ -83,3 +83,11 @@ Example C03_fanin_example : independent_inputs fanin_example = true.
 Proof. exact fanin_example_independent. Qed.
 Example C03_diamond_excluded : independent_inputs diamond = false /\ c03_domain diamond = false.
 Proof. exact diamond_not_independent. Qed.
+
+(* third pass: the harness observes model_run3 / spec_run3, which also know nodes whose splitter pairs two upstream
+   states explicitly, ("_A", "_B") (Model.build_pair, Spec.spec_entry_pair).  The proof did NOT close for pair nodes in
+   the time box: c03_class3 = "no pair node" && c03_class2, i.e. C03_partial3 only carries C03_partial2 over to the
+   observable functions the correspondence run uses; pair nodes are compared with model and spec differentially. *)
+Theorem C03_partial3 : forall w3 : workflow3, c03_class3 w3 = true -> model_run3 w3 = spec_run3 w3.
+Proof. exact partial3. Qed.
+Print Assumptions C03_partial3.
